@@ -247,6 +247,8 @@ pub fn rand_recs(rng: &mut Rng, lang: &str, n: usize, distinct_ratings: bool, co
             let t = match rng.below(20) {
                 0 => long_title(rng, lang),
                 1 | 2 => shaped_title(rng, lang),
+                // a record without any word (it has no obligations of its own, its neighbours keep theirs)
+                3 if rng.chance(1, 2) => rng.pick(&["", " - ", "!!!", "\u{301}", "'"]).to_string(),
                 _ => realistic_title(rng, lang, corpus),
             };
             (id, t, ratings[i])
